@@ -368,6 +368,13 @@ def trigger(prog, rep):
     cm = prog.func("check_for_migration")
     pw = prog.func("PeeweeStorage.__init__")
     fn_def = single_def(pw, "filename")
+    if fn_def is None:
+        # the file name is whatever is joined onto the data directory for the default path
+        from ..trace import deep
+
+        for c_ in walk_with_nested_exprs(pw.node):
+            if isinstance(c_, ast.Call) and norm(c_.func) == "os.path.join" and len(c_.args) == 2 and norm(deep(c_.args[0], pw)).startswith("get_data_dir("):
+                fn_def = deep(c_.args[1], pw, stop=("testing",))
     det = [x for x in prog.all_calls(cm) if norm(x.func) == "detect_db_files"]
     if fn_def is None or len(det) != 1 or len(det[0].args) < 3:
         rep.undecided("TRIGGER", cm.short, "legacy file name", "cannot find PeeweeStorage's filename expression / the detect_db_files call", cm.loc())
